@@ -4,6 +4,7 @@ Three parties per generated case (1-3 config loads + every lookup path of length
   * the implementation (harness/h_config.cpp: real tokenizer, bison parser, confighost, SQF operators),
   * the mechanism model extracted from coq/Config/ConfigDefs.v (ocaml/config_driver.ml), defect setting as_is,
   * an independent reference written here from the property text (Ref*), which abstains where the text is silent.
+The 'chain' family (gen_chain) runs the same three parties on inheritance chains of 2 .. ~2000 classes with chosen lookup paths.
 """
 import json, os, re, sys
 import vcommon as V
@@ -201,6 +202,227 @@ def gen_case(rng, profile):
     return loads, names
 
 
+# ------------------------------------------------------------------ deep inheritance ("chain" family)
+# "finds an entry exactly when it is defined in the class or in an ancestor along its inheritance chain" carries no bound on the
+# length of that chain.  The grammar cases above have chains of 2-4 classes; this family builds a trunk of n classes, each derived from
+# the one before (n from 2 to a few thousand, dense around 8/16/32/64/100/128/256/512/1000/1024/2048), with side branches, entries
+# defined / overridden / deleted / appended to at sparse random levels, spread over scopes and loads, and looks every entry up from
+# classes at every distance (all of them in a short chain, the marks below relative to the defining classes in a long one).
+CHAIN_MARKS = (1, 2, 3, 7, 8, 9, 15, 16, 17, 31, 32, 33, 63, 64, 65, 99, 100, 101, 127, 128, 129, 199, 200, 201, 255, 256, 257,
+               499, 500, 501, 511, 512, 513, 999, 1000, 1001, 1023, 1024, 1025, 2047, 2048, 2049)
+CHAIN_SCALARS = ("v", "name", "x", "p", "q")      # p, q: never in the root class - defined only somewhere up the chain
+CHAIN_ARRAYS = ("list", "arr")
+CHAIN_BANDS = {"short": (2, 12, ()), "medium": (13, 48, (15, 16, 17, 18, 31, 32, 33, 34, 35, 40)),
+               "long": (49, 300, (63, 64, 65, 66, 100, 101, 127, 128, 129, 130, 255, 256, 257, 258)),
+               "huge": (301, 2100, (511, 512, 513, 514, 1000, 1001, 1023, 1024, 1025, 1026, 2047, 2048, 2049, 2050))}
+
+
+def chain_length(rng, band):
+    lo, hi, marks = CHAIN_BANDS[band]
+    return rng.choice(marks) if marks and rng.random() < 0.5 else rng.randint(lo, hi)
+
+
+def gen_chain(rng, n, q=None):
+    """-> loads, names, paths.  Keeps to the 'regular' discipline of gen_case (the reference decides every case): class names are
+    unique and unrelated to the position in the chain, a field name has one type, a base is visible from the enclosing classes when
+    the class is defined, a re-opened class keeps its base, a name deleted in a class is not declared there again."""
+    ids = rng.sample(range(1, 10 * n + 400), n + 100)
+    fresh = lambda: rng.choice("KLMPQRTUVW") + rng.choice(["", "", "_", "z"]) + "%d" % ids.pop()
+    # ---- scopes: everything at top level / everything inside a holder class / the chain descends into holder classes on its way
+    holder = (fresh(), fresh())
+    mode = rng.choice(["top", "top", "nested", "descending"])
+    cut1 = cut2 = n
+    if mode == "nested":
+        cut1 = 0
+        cut2 = 0 if rng.random() < 0.3 else n
+    elif mode == "descending":
+        cut1 = rng.randint(1, n - 1)
+        cut2 = rng.randint(cut1, n) if rng.random() < 0.5 else n
+    scope_of = lambda k: () if k < cut1 else (holder[:1] if k < cut2 else holder)
+    # ---- classes: rec = {name, scope, base (rec), body, own: name -> kind, depth}
+    # q: how often a class below the root has a body; sparse in long chains, so that entries are inherited over long stretches
+    if q is None:
+        q = rng.choice([0.0, 0.15, 0.4, 0.7] if n <= 12 else [0.0, 0.02, 0.06, 0.15, 0.4] if n <= 48 else
+                       [0.0, 0.01, 0.03, 0.1] if n <= 300 else [0.0, 0.0, 0.002, 0.01, 0.05])
+    pool = list(CHAIN_SCALARS) + list(CHAIN_ARRAYS) + ["Sub"]
+
+    def stmt_for(rec, nm, root=False):
+        r = rng.random()
+        if nm == "Sub":
+            if r < 0.2 and not root:
+                rec["own"][nm] = "deleted"
+                return ["D", nm]
+            body = [["F", "w", ["N", rng.randint(0, 999), "d"]]] if rng.random() < 0.85 else []
+            if rng.random() < 0.4:
+                body.append(["F", "list", gen_array(rng)])
+            rec["own"][nm] = "class"
+            return ["C", "Sub", None, body, {"decl": False}]
+        if r < 0.15 and not root:
+            rec["own"][nm] = "deleted"
+            return ["D", nm]
+        rec["own"][nm] = "value"
+        if nm in CHAIN_ARRAYS:
+            return ["A" if (r < 0.6 and not root) else "F", nm, gen_array(rng)]
+        return ["F", nm, gen_value(rng, 0, scalar_only=True)]
+
+    def make(name, scope, base, root=False):
+        rec = {"name": name, "scope": scope, "base": base, "body": [], "own": {}, "depth": 0 if base is None else base["depth"] + 1}
+        if root:
+            picks = rng.sample(["v", "name", "x", "list", "arr", "Sub"], rng.choice([2, 3, 4, 6]))
+            if not any(p_ in CHAIN_SCALARS for p_ in picks):
+                picks.append("v")
+            if not any(p_ in CHAIN_ARRAYS for p_ in picks) and rng.random() < 0.8:
+                picks.append("list")
+        else:
+            picks = rng.sample(pool, rng.choice([1, 1, 2])) if rng.random() < q else []
+        for nm in picks:
+            rec["body"].append(stmt_for(rec, nm, root))
+        return rec
+
+    trunk = []
+    for k in range(n):
+        trunk.append(make(fresh(), scope_of(k), trunk[-1] if trunk else None, root=(k == 0)))
+    leaf = trunk[-1]
+    if rng.random() < 0.6:      # the far end appends to / overrides what it inherits over the whole distance
+        for nm in rng.sample(pool, 2):
+            if nm not in leaf["own"]:
+                leaf["body"].append(stmt_for(leaf, nm))
+    order = list(trunk)
+    branches = []
+    for _ in range(rng.choice([0, 0, 1, 3, 6])):
+        pos = rng.randrange(len(order))
+        base = order[pos]
+        rec = make(fresh(), base["scope"], base)       # declared behind its base, in the base's scope
+        if rng.random() < 0.5 and not rec["body"]:
+            rec["body"].append(stmt_for(rec, rng.choice(pool)))
+        order.insert(rng.randint(pos + 1, len(order)), rec)
+        branches.append(rec)
+
+    def node(rec):
+        return ["C", rec["name"], rec["base"]["name"] if rec["base"] else None, rec["body"],
+                {"decl": (not rec["body"]) and rng.random() < 0.15}]
+
+    def wrap(scope, nodes):
+        for h in reversed(scope):
+            nodes = [["C", h, None, nodes, {"decl": False}]]
+        return nodes
+
+    def emit(recs):
+        out, i = [], 0
+        while i < len(recs):
+            j = i
+            while j < len(recs) and recs[j]["scope"] == recs[i]["scope"]:
+                j += 1
+            out += wrap(recs[i]["scope"], [node(r_) for r_ in recs[i:j]])
+            i = j
+        return out
+
+    nloads = rng.choice([1, 1, 2, 3])
+    cuts = sorted(rng.sample(range(1, len(order)), min(nloads - 1, len(order) - 1))) if len(order) > 1 else []
+    loads = [emit(order[a:b]) for a, b in zip([0] + cuts, cuts + [len(order)])]
+    # ---- a later load re-opens classes far up the chain: what it adds / overrides / appends shows in every descendant
+    late = []
+    for _ in range(rng.choice([0, 0, 1, 2])):
+        rec = rng.choice(trunk[:max(1, n // 3)] + [trunk[0]])
+        cands = [nm for nm in pool if nm != "Sub" and rec["own"].get(nm) != "deleted"]
+        nm = rng.choice(cands)
+        st = stmt_for(rec, nm, root=(rec["own"].get(nm) is None and rng.random() < 0.5))
+        if st[0] == "D":
+            continue
+        keep = rec["base"]["name"] if (rec["base"] and rng.random() < 0.5) else None
+        late += wrap(rec["scope"], [["C", rec["name"], keep, [st], {"decl": False}]])
+    if late:
+        loads.append(late)
+    # ---- an outer chain over the holder class: Om >> <chain class> >> <entry> crosses two inheritance walks
+    outer = []
+    if holder[0] in [s for r_ in order for s in r_["scope"]] and rng.random() < 0.7:
+        m = rng.choice([1, 2, 5, rng.choice([16, 17, 32, 33, 34, 40, 64, 65, 70])])
+        prev = holder[0]
+        for _ in range(m):
+            nm = fresh()
+            outer.append(["C", nm, prev, [], {"decl": rng.random() < 0.15}])
+            prev = nm
+        loads.append(outer) if rng.random() < 0.5 else loads[-1].extend(outer)
+    # ---- where to look from
+    if len(order) <= 40:
+        chosen = list(order)
+    else:
+        definers = [k for k in range(1, n) if trunk[k]["body"]]
+        anchors = [0] + rng.sample(definers, min(3, len(definers)))
+        picked = {0, n - 1}
+        for a in anchors:
+            near = {a + m for m in CHAIN_MARKS if a + m < n} | {a}
+            if a:
+                near = set(rng.sample(sorted(near), min(len(near), 12))) | {a, a - 1}
+            picked |= near
+        picked |= set(rng.sample(range(n), 6))
+        chosen = [trunk[k] for k in sorted(picked)] + branches
+    entries = sorted({nm for r_ in order for nm in r_["own"]} | {"v", "list"}) + ["zz"]
+    paths, seen = [()], {()}
+
+    def want(p_):
+        for k in range(1, len(p_) + 1):
+            if p_[:k] not in seen:
+                seen.add(p_[:k])
+                paths.append(p_[:k])
+
+    for rec in chosen:
+        me = rec["scope"] + (rec["name"],)
+        for nm in entries:
+            want(me + (nm,))
+        if "Sub" in entries:
+            want(me + ("Sub", "w"))
+            want(me + ("Sub", "list"))
+    if outer:
+        tops = [outer[-1][1]] + ([outer[len(outer) // 2][1], outer[0][1]] if len(outer) > 2 else [])
+        inner = [r_ for r_ in chosen if r_["scope"] == holder[:1]]
+        for top in tops:
+            for rec in rng.sample(inner, min(len(inner), 6)):
+                for nm in entries:
+                    want((top, rec["name"], nm))
+            if len(holder) > 1:
+                want((top, holder[1]))
+    paths.sort(key=len)
+    names = [r_["name"] for r_ in chosen] + entries
+    return loads, names, paths
+
+
+def ref_distance(ref, path):
+    """number of base-class steps the last `>>` of this lookup takes before it meets the (nearest) definition or delete marker;
+    None when the path does not get that far or no class of the chain has the entry"""
+    c = ref.root
+    for nm in path[:-1]:
+        c = ref.lookup(c, nm) if c is not None else None
+    d = 0
+    while c is not None and c.kind == "class":
+        if path[-1] in c.index:
+            return d
+        c = c.base
+        d += 1
+    return None
+
+
+def chain_depth(ref, path):
+    """length of the inheritance chain above the class this path denotes (None: not a class)"""
+    c = ref.root
+    for nm in path:
+        c = ref.lookup(c, nm) if c is not None else None
+    if c is None or c.kind != "class":
+        return None
+    d = 0
+    while c.base is not None:
+        c = c.base
+        d += 1
+    return d
+
+
+def bucket(d):
+    for lim, lab in ((0, "0"), (7, "1-7"), (31, "8-31"), (127, "32-127"), (1023, "128-1023")):
+        if d <= lim:
+            return lab
+    return ">=1024"
+
+
 # ------------------------------------------------------------------ rendering to config text
 def render_number(n, sp):
     if sp == "d0":
@@ -310,6 +532,7 @@ class Ref:
     def __init__(self):
         self.root = RefClass("config/bin", None)
         self.silent = []
+        self.append_distances = []   # per `+=` that found an inherited array: base-class steps from the appending class to its owner
 
     def own(self, c, name):
         if name in c.index:
@@ -399,6 +622,10 @@ class Ref:
             obj, fresh = self.entry(scope, n[1], "value")
             mine = ref_value(n[2])
             if inh is not None and isinstance(inh.value, list):
+                k, d = scope, 0
+                while k is not None and inh.parent is not k and d < 10000:
+                    k, d = k.base, d + 1
+                self.append_distances.append(d)
                 obj.value = list(inh.value) + mine
             else:
                 if inh is not None:
@@ -493,11 +720,17 @@ def has_delete(loads):
 
 
 class Case:
-    def __init__(self, kind, loads, names, texts=None, rng=None):
+    def __init__(self, kind, loads, names, texts=None, rng=None, paths=None):
         self.kind, self.loads, self.names = kind, loads, names
         self.texts = texts if texts is not None else [render_load(l, rng) for l in loads]
         self.flags = "" if has_delete(loads) else "c"     # configClasses dereferences delete markers (ops_config.cpp:255)
-        self.paths, self.parent = all_paths(names)
+        self.given = paths is not None
+        if paths is None:
+            self.paths, self.parent = all_paths(names)
+        else:                                             # the chain family names its lookup paths (prefixes first)
+            self.paths = [tuple(p_) for p_ in paths]
+            at = {p_: k for k, p_ in enumerate(self.paths)}
+            self.parent = [at.get(p_[:-1], -1) if p_ else -1 for p_ in self.paths]
 
     def impl_line(self):
         chunks = ",".join("%d:%s" % (p, V.hx(chunk_sqf(path, self.flags))) for path, p in zip(self.paths, self.parent))
@@ -508,7 +741,10 @@ class Case:
         return defects + "\t" + ser_loads(self.loads) + "\t" + chunks
 
     def replay(self):
-        return {"kind": self.kind, "loads": self.loads, "names": self.names, "texts": self.texts}
+        r = {"kind": self.kind, "loads": self.loads, "names": self.names, "texts": self.texts}
+        if self.given:
+            r["paths"] = [list(p_) for p_ in self.paths]
+        return r
 
 
 def parse_result(line, nchunks):
@@ -556,13 +792,13 @@ def main(replay=None):
     cases = []
     if replay:
         r = json.load(open(replay))["replay"]
-        cases.append(Case(r.get("kind", "replay"), r["loads"], r["names"], r.get("texts"), rng))
+        cases.append(Case(r.get("kind", "replay"), r["loads"], r["names"], r.get("texts"), rng, r.get("paths")))
     else:
         cdir = os.path.join(V.VERIF, "corpus", PID)
         if os.path.isdir(cdir):
             for fn in sorted(os.listdir(cdir)):
                 r = json.load(open(os.path.join(cdir, fn)))
-                cases.append(Case("corpus:" + fn, r["loads"], r["names"], r.get("texts"), rng))
+                cases.append(Case("corpus:" + fn, r["loads"], r["names"], r.get("texts"), rng, r.get("paths")))
         nreg, nwild = (3000, 1500) if thorough else (170, 80)
         for i in range(nreg):
             loads, names = gen_case(rng, "regular")
@@ -573,6 +809,13 @@ def main(replay=None):
         for i in range(300 if thorough else 40):
             loads, names = gen_shadow(rng)
             cases.append(Case("shadow", loads, names, None, rng))
+        bands = ["short"] * 12 + ["medium"] * 18 + ["long"] * 16 + ["huge"] * 4
+        for band in bands * (8 if thorough else 1):
+            loads, names, paths = gen_chain(rng, chain_length(rng, band))
+            cases.append(Case("chain", loads, names, None, rng, paths))
+        for lo, hi in ((34, 48), (130, 300), (1026, 2100)):      # in every run: only the root and the far end define anything
+            loads, names, paths = gen_chain(rng, rng.randint(lo, hi), q=0.0)
+            cases.append(Case("chain", loads, names, None, rng, paths))
 
     ilines = [c.impl_line() for c in cases]
     rc, impl, err = V.run_lines_parallel([himpl], ilines, timeout=3000)
@@ -582,7 +825,10 @@ def main(replay=None):
     distinct = set()
     found = []      # (category, what, replay, found_input, case, parsed impl)
     stats = {"lookups": 0, "lookups_found": 0, "oracle_decided_cases": 0, "oracle_silent_cases": 0, "silent_reasons": {},
-             "model_predicts_ub_or_hang": 0, "loads_with_warnings": 0}
+             "model_predicts_ub_or_hang": 0, "loads_with_warnings": 0,
+             "chain_family": {"longest_chain": 0, "cases_by_chain_length": {}, "lookups_by_distance_to_nearest_definition": {},
+                       "lookups_of_entries_no_class_of_the_chain_has": 0, "appends_by_distance_to_inherited_array": {},
+                       "lookups_through_two_chains": 0}}
     for c, il, ml in zip(cases, impl, model):
         kinds[c.kind.split(":")[0]] = kinds.get(c.kind.split(":")[0], 0) + 1
         rep = c.replay()
@@ -605,6 +851,23 @@ def main(replay=None):
                 stats["silent_reasons"][s_] = stats["silent_reasons"].get(s_, 0) + 1
         else:
             stats["oracle_decided_cases"] += 1
+        if c.given:
+            ch = stats["chain_family"]
+            deepest = max([chain_depth(ref, p_) or 0 for p_ in c.paths if 0 < len(p_) <= 3])
+            ch["longest_chain"] = max(ch["longest_chain"], deepest + 1)
+            ch["cases_by_chain_length"][bucket(deepest + 1)] = ch["cases_by_chain_length"].get(bucket(deepest + 1), 0) + 1
+            for p_ in c.paths:
+                if len(p_) < 2 or chain_depth(ref, p_[:-1]) is None:
+                    continue
+                d = ref_distance(ref, p_)
+                if d is None:
+                    ch["lookups_of_entries_no_class_of_the_chain_has"] += 1
+                else:
+                    ch["lookups_by_distance_to_nearest_definition"][bucket(d)] = ch["lookups_by_distance_to_nearest_definition"].get(bucket(d), 0) + 1
+                    if len(p_) >= 3 and d > 0 and (ref_distance(ref, p_[:-1]) or 0) > 0:
+                        ch["lookups_through_two_chains"] += 1
+            for d in ref.append_distances:
+                ch["appends_by_distance_to_inherited_array"][bucket(d)] = ch["appends_by_distance_to_inherited_array"].get(bucket(d), 0) + 1
         iloads, ich = pi
         mloads, mch = pm
         stats["loads_with_warnings"] += sum(1 for x in iloads if x.startswith("ok:") and x != "ok:-")
@@ -693,7 +956,17 @@ def main(replay=None):
                        "index from -1 to count, inheritsFrom, configHierarchy, configClasses (when no delete occurs); an evaluation = one path with all its "
                        "observers; a case is non-trivial when more than one path resolves to an entry; distinct by config texts. Verdict per case: "
                        "(1) no load/lookup may hang or crash, (2) where the property text decides (reference semantics in this file) the observations "
-                       "must equal it, (3) implementation == mechanism model as_is, values and diagnostic codes")
+                       "must equal it, (3) implementation == mechanism model as_is, values and diagnostic codes. "
+                       "Family 'chain' (deep inheritance; the property puts no bound on the length of the chain): a trunk of n classes each derived "
+                       "from the one before, n from 2 to about 2000 and dense around 16/32/64/100/128/256/512/1000/1024/2048, class names unrelated to "
+                       "the position, side branches, the chain at top level / inside holder classes / descending into them, spread over 1-3 loads; "
+                       "the root defines numbers, texts, arrays and a class Sub, sparse random levels override, delete, += or add entries (p, q exist "
+                       "only from some level on), the far end appends/overrides, a later load re-opens classes far up the chain, an outer chain derives "
+                       "from the holder class; lookups Class >> entry (and >> Sub >> w, Outer >> Class >> entry) from EVERY class of a chain of <= 40 "
+                       "classes, else from the classes at distance 1,2,3,7,8,9,15,16,17,31,32,33,...,2047,2048,2049 from the root and from up to three "
+                       "defining classes plus random ones, for every entry name in play and one absent name; same observers and the same three verdicts "
+                       "(expected values from the reference semantics in this file); input_distribution.chain_family counts the lookups by the number of "
+                       "base-class steps to the nearest definition and the += by the distance to the inherited array")
     run.cov["input_distribution"] = dict(kinds, **{k: v for k, v in stats.items()})
     run.cov["samples"] = samples
     run.cov["trusted_base"] = ["Coq 8.16.1 kernel (vm_compute only in the witness/example lemmas)",
